@@ -197,6 +197,11 @@ def run_shard(ctx: Ctx, acc: Acc):
             acc.count(k, v)
         for key, what in vio:
             acc.violation(key, what, {"session": sess_kind, "stream": stream, "cuts": list(cuts), "classes": classes})
+            if key == "no-return-within-cpu-budget":
+                acc.count("no-return")
+        if acc.counters.get("no-return", 0) >= 3:
+            acc.count("shard-stopped-early-after-hangs")
+            return
 
 
 def replay(w):
